@@ -29,6 +29,9 @@ pub enum Hist {
     Churn,
     /// a connection whose handler panics (fault in interface code), then an ordinary one
     HandlerPanic,
+    /// the stop flag is set while a long streaming reply is in flight; further clients arrive
+    /// while it is still in flight, the last one well after any reading of "shortly"
+    LateClientsDuringStream,
 }
 
 #[derive(Clone, Copy, Debug, PartialEq, Eq, Hash)]
@@ -227,6 +230,62 @@ fn run_scn(s: &Scn) -> Result<Obs, String> {
                 obs.closes.push(t0.elapsed().as_millis());
             }
         }
+        Hist::LateClientsDuringStream => {
+            sleep_until(t0, 50);
+            if let Ok(mut c) = RawConn::connect(&address) {
+                obs.connects.push(t0.elapsed().as_millis());
+                let r = Req::new(Kind::Stream2, Flags { more: true, oneway: false }, "lstr");
+                let mut v = r.to_value();
+                v["parameters"]["n"] = json!(48); // 48 x 100 ms
+                let mut b = serde_json::to_vec(&v).unwrap();
+                b.push(0);
+                let _ = c.write_all(&b);
+                sleep_until(t0, 300 + s.jitter);
+                set_flag(&server, &mut obs);
+                let flag_at = obs.flag_set_at.unwrap();
+                // clients at flag + 0.7 s / 1.9 s / 3.4 s, while the stream is still running; only
+                // the one beyond quantum + slack is judged
+                for (k, after) in [700u128, 1900, 3400].into_iter().enumerate() {
+                    sleep_until(t0, (flag_at + after) as u64);
+                    let mut o2 = Obs::default();
+                    let started = t0.elapsed().as_millis();
+                    if let Ok(mut lc) = RawConn::connect(&address) {
+                        let _ = lc.write_all(&echo(&format!("late{}", k)));
+                        if let ReadEv::Frame(f) = lc.read_frame(Duration::from_millis(600)) {
+                            if String::from_utf8_lossy(&f).contains(&format!("late{}", k)) {
+                                obs.churn_answered += 1;
+                                obs.closes.push(t0.elapsed().as_millis());
+                                if started > flag_at + (QUANTUM + SLACK).as_millis() {
+                                    obs.answered_after_late_bound += 1;
+                                }
+                            }
+                        }
+                    }
+                    let _ = &mut o2;
+                }
+                let mut frames = 0;
+                loop {
+                    match c.read_frame(Duration::from_secs(10)) {
+                        ReadEv::Frame(f) => {
+                            frames += 1;
+                            let v: Value = serde_json::from_slice(&f).unwrap_or(Value::Null);
+                            if !is_continues(&v) {
+                                break;
+                            }
+                        }
+                        other => {
+                            obs.truncated.push(format!("streaming reply cut after {} of 49 frames: {:?}", frames, other));
+                            break;
+                        }
+                    }
+                }
+                if frames != 49 && obs.truncated.is_empty() {
+                    obs.truncated.push(format!("streaming reply has {} frames, expected 49", frames));
+                }
+                drop(c);
+                obs.closes.push(t0.elapsed().as_millis());
+            }
+        }
         Hist::QueuedAtStop => {
             sleep_until(t0, 50);
             let a = RawConn::connect(&address);
@@ -413,8 +472,11 @@ pub fn scenarios(tier: Tier, seed: u64) -> Vec<Scn> {
     for idle in [0u64, 1, 2] {
         for flag in [FlagPlan::NoFlag, FlagPlan::Before, FlagPlan::During, FlagPlan::Never] {
             for (pi, pool) in pools.iter().enumerate() {
-                for hist in [Hist::NoConn, Hist::LateArrival, Hist::LongLived, Hist::CloseAtDeadline, Hist::StreamInFlight, Hist::QueuedAtStop, Hist::Churn, Hist::HandlerPanic] {
+                for hist in [Hist::NoConn, Hist::LateArrival, Hist::LongLived, Hist::CloseAtDeadline, Hist::StreamInFlight, Hist::QueuedAtStop, Hist::Churn, Hist::HandlerPanic, Hist::LateClientsDuringStream] {
                     // combinations that can never return or make no sense
+                    if hist == Hist::LateClientsDuringStream && (flag != FlagPlan::During || (tier == Tier::Quick && pi != (idle as usize % 3))) {
+                        continue;
+                    }
                     if idle == 0 && matches!(flag, FlagPlan::NoFlag | FlagPlan::Never) {
                         continue;
                     }
@@ -631,7 +693,7 @@ pub fn replay(ctx: &Ctx, w: &Value) {
         Some("Never") => FlagPlan::Never,
         _ => FlagPlan::NoFlag,
     };
-    let hist = [Hist::NoConn, Hist::LateArrival, Hist::LongLived, Hist::CloseAtDeadline, Hist::StreamInFlight, Hist::QueuedAtStop, Hist::Churn].into_iter().find(|h| Some(format!("{:?}", h).as_str()) == j["hist"].as_str()).unwrap_or(Hist::NoConn);
+    let hist = [Hist::NoConn, Hist::LateArrival, Hist::LongLived, Hist::CloseAtDeadline, Hist::StreamInFlight, Hist::QueuedAtStop, Hist::Churn, Hist::HandlerPanic, Hist::LateClientsDuringStream].into_iter().find(|h| Some(format!("{:?}", h).as_str()) == j["hist"].as_str()).unwrap_or(Hist::NoConn);
     let s = Scn { idle: j["idle"].as_u64().unwrap_or(0), flag, pool: (j["pool"][0].as_u64().unwrap_or(1) as usize, j["pool"][1].as_u64().unwrap_or(1) as usize), hist, jitter: j["jitter"].as_u64().unwrap_or(0) };
     match run_scn(&s) {
         Ok(o) => {
